@@ -11,11 +11,11 @@ import samlbuild as sb
 import sp_common as spc
 import tlc
 
-B = {'POST': env.BINDING_POST, 'Redirect': env.BINDING_REDIRECT, 'SOAP': env.BINDING_SOAP,
+B = {'SimpleSign': 'urn:oasis:names:tc:SAML:2.0:bindings:HTTP-POST-SimpleSign', 'POST': env.BINDING_POST, 'Redirect': env.BINDING_REDIRECT, 'SOAP': env.BINDING_SOAP,
      'Artifact': 'urn:oasis:names:tc:SAML:2.0:bindings:HTTP-Artifact', 'PAOS': 'urn:oasis:names:tc:SAML:2.0:bindings:PAOS',
      'bogus': 'urn:verif:bogus-binding'}
 BREV = dict((v, k) for k, v in B.items())
-U = {'url1': 'https://sp1.verif.example/acs/one', 'url2': 'https://sp1.verif.example/acs/two',
+U = {'url5': 'https://sp1.verif.example/acs/simplesign', 'url1': 'https://sp1.verif.example/acs/one', 'url2': 'https://sp1.verif.example/acs/two',
      'url3': 'https://sp1.verif.example/acs/three', 'url4': 'https://sp1.verif.example/acs/art',
      'urlB': 'https://sp2.verif.example/acs', 'slo1': 'https://sp1.verif.example/slo/soap',
      'slo2': 'https://sp1.verif.example/slo/redirect', 'sloB': 'https://sp2.verif.example/slo',
@@ -26,7 +26,8 @@ U = {'url1': 'https://sp1.verif.example/acs/one', 'url2': 'https://sp1.verif.exa
      'url1-noscheme': 'sp1.verif.example/acs/one', 'unregistered': 'https://evil.example/acs'}
 UREV = dict((v, k) for k, v in U.items())
 ACS = {'L1': [('POST', 'url1', 1)], 'L2': [('POST', 'url1', 1), ('POST', 'url2', 2), ('Redirect', 'url3', 3)],
-       'L3': [('Redirect', 'url3', 1)], 'L4': [('Artifact', 'url4', 2), ('POST', 'url1', 1)]}
+       'L3': [('Redirect', 'url3', 1)], 'L4': [('Artifact', 'url4', 2), ('POST', 'url1', 1)],
+       'L5': [('SimpleSign', 'url5', 1), ('Redirect', 'url3', 2)]}
 SP1, SP2 = 'urn:verif:sp1', 'urn:verif:sp2-other'
 ISS = {'sp1': SP1, 'sp2': SP2, 'unknown': 'urn:verif:nobody'}
 IDS = {'urn': {'sp1': SP1, 'sp2': SP2, 'unknown': 'urn:verif:nobody', 'sp1-slash': SP1 + '/', 'sp1-case': 'urn:verif:SP1'},
@@ -47,7 +48,7 @@ def sp_md(entity, acs, slo):
 
 def replay(case):
     scn = case['scn']
-    slo = [] if scn['layout'] == 'L3' else [('SOAP', 'slo1'), ('Redirect', 'slo2')]
+    slo = [] if scn['layout'] in ('L3', 'L5') else [('SOAP', 'slo1'), ('Redirect', 'slo2')]
     ISS = IDS[scn.get('idStyle', 'urn')]
     SP1, SP2 = ISS['sp1'], ISS['sp2']
     md = [sp_md(SP1, ACS[scn['layout']], slo), sp_md(SP2, [('POST', 'urlB', 1)], [('Redirect', 'sloB')])]
